@@ -45,7 +45,8 @@ CHECKS["C01"] = {
                  "checked by a static rank check, a lifecycle-observer monitor and a per-cycle reference interpreter",
     "design_ref": "DESIGN.md 2/C01",
     "parts": [{"name": "graphx", "exe": "c01_order", "sources": ["c01_order.cpp"], "shards": {"quick": 16, "thorough": 256}},
-              {"name": "pause", "exe": "c01_pause", "sources": ["c01_pause.cpp"], "shards": 8}],
+              {"name": "pause", "exe": "c01_pause", "sources": ["c01_pause.cpp"], "shards": 8},
+              {"name": "mesh", "exe": "c01_mesh", "sources": ["c01_mesh.cpp"], "shards": {"quick": 16, "thorough": 64}}],
     "rule": "every canonical DAG program of <= N statements over {int source, bool source, 1/2/3-input compute, stateful accumulator, "
             "to_tsl/to_tsb structural source + collection reader, if_then_else (REF), nested_<G> and inlined wire<G> of 4 bodies up to "
             "nesting depth 2} in which every statement but the last is consumed; x EVERY insertion order of the statements (inputs not yet "
@@ -56,10 +57,14 @@ CHECKS["C01"] = {
             "nested_ and inside try_except_, driven cycle by cycle through MockGraphExecutor; the gate may throw, or PAUSE once or twice (evaluate "
             "returns false, the cycle is evaluated again at the same time); every history over T cycles of {none, value, throwing value, pause-once, "
             "pause-twice}: Before and After run exactly once per ticking cycle, the gate is entered once per resume and completes once, nothing runs "
-            "after a throw, a captured throw (try_except_) does not disturb later cycles.",
-    "bounds": {"quick": "N<=4 statements, <=2 sources, T=3 (T=2 for N=4), all 4!/3!/2! orders",
+            "after a throw, a captured throw (try_except_) does not disturb later cycles. mesh part: result[k] = val[k] + default(mesh_(f)[link[k]], 0) over two "
+            "dictionaries; every history of <= L ops per cycle over T cycles from {set val[k] (cycle-stamped digit), point link[k] at j, j possibly a key created "
+            "on demand that never has a value}; at the end of EVERY cycle the mesh output must equal the stateless recomputation of all instances from the "
+            "current tables (a lagging digit = an instance ran before the sibling it reads through the reference). Histories that close a link cycle (also "
+            "transiently, through an edge replaced in the same cycle) or re-point a link from a target with a result to one without are not run.",
+    "bounds": {"quick": "N<=4 statements, <=2 sources, T=3 (T=2 for N=4), all 4!/3!/2! orders; mesh: 3 keys + 1 on-demand key, L<=1 x T=5, L<=2 x T=3, L<=3 x T=2",
                "thorough": "N<=4 statements over the full alphabet, <=3 sources, T=3, all orders; N=5 over {source, 1/2-input compute, accumulator, list reader, nested_} with <=2 sources, T=2, all 5! orders"},
-    "min_counters": {"quick": {"nontrivial": 10000, "graphx.cycle_cases": 20, "graphx.runs_with_nested_evaluations": 1000}},
+    "min_counters": {"quick": {"nontrivial": 10000, "graphx.cycle_cases": 20, "graphx.runs_with_nested_evaluations": 1000, "mesh.mesh_cases": 100000}},
     "assumptions": COMMON_ASSUMPTIONS + [
         "Programs larger than the bound, service/adaptor rank anchors and mesh are not explored.",
         "The modified flag of an input that holds no value is not compared (outside C01's statement).",
